@@ -1045,6 +1045,7 @@ fn run_shapes<const N: usize>(rep: &mut EngineReport, nk: u8, nv: u8, threads: u
     run_shape::<u8, (), N>(rep, nk, nv, threads);
     run_shape::<u8, u8, N>(rep, nk, nv, threads);
     run_shape::<u8, mc::payload::Big, N>(rep, nk, nv, threads);
+    run_shape::<u8, mc::payload::Al, N>(rep, nk, nv, threads);
     run_shape::<String, String, N>(rep, nk, nv, threads);
     run_shape::<mc::payload::Kn, mc::payload::Vn, N>(rep, nk, nv, threads);
     run_shape::<(), Vx, N>(rep, nk, nv, threads);
